@@ -57,7 +57,7 @@ var flagPool = []imap.Flag{imap.FlagSeen, imap.FlagDeleted, "\\Recent", "kw", "\
 func genCriteria(t *rapid.T, depth int, loc *time.Location, mask fieldMask) imap.SearchCriteria {
 	var c imap.SearchCriteria
 	on := func(name string) bool {
-		if rapid.IntRange(0, 9).Draw(t, name+"?") < 2 {
+		if v := rapid.IntRange(0, 9).Draw(t, name+"?"); v == 4 || v == 5 { // ~15% (rapid favours small values; 0 shrinks to "unset")
 			mask[name] = true
 			return true
 		}
